@@ -5,12 +5,37 @@
 use raft::eraftpb::{Message, MessageType};
 use raft::StateRole;
 
+pub type Ent = (u64, u64);
+
 #[derive(Default)]
 pub struct PTrace {
     pub ev: Vec<u64>,
     pub count: u64,
     pub enabled: bool,
     pub inc: Vec<u64>,
+    /// log-layer trace: the election events plus log / durable-log / released-ack events
+    pub lev: Vec<u64>,
+    pub lcount: u64,
+    /// ghost full (never compacted) logs: volatile and durable, per node
+    pub ghost: std::collections::BTreeMap<u64, Vec<Ent>>,
+    pub dghost: std::collections::BTreeMap<u64, Vec<Ent>>,
+    pub last_commit: std::collections::BTreeMap<u64, u64>,
+    /// the longest committed prefix reported by any node (fills prefixes hidden by snapshots)
+    pub committed_log: Vec<Ent>,
+}
+
+/// payload id of an entry: 0 for the empty normal entry (a leader's no-op), else a digest
+pub fn ent_of(e: &raft::eraftpb::Entry) -> Ent {
+    let ty = e.get_entry_type() as u64;
+    if ty == 0 && e.data.is_empty() && e.context.is_empty() {
+        return (e.term, 0);
+    }
+    let mut h: u64 = 0xcbf29ce484222325 ^ ty;
+    for b in e.data.iter().chain([0xffu8].iter()).chain(e.context.iter()) {
+        h ^= *b as u64;
+        h = h.wrapping_mul(0x100000001b3);
+    }
+    (e.term, 1 + (h % (1u64 << 40)))
 }
 
 pub fn role_code(r: StateRole) -> u64 {
@@ -30,23 +55,21 @@ impl PTrace {
         if pre == post && gfrom.is_none() {
             return; // stutter
         }
-        self.ev.extend_from_slice(&[1, n, pre.0, pre.1, role_code(pre.2), post.0, post.1, role_code(post.2)]);
+        let mut v = vec![1, n, pre.0, pre.1, role_code(pre.2), post.0, post.1, role_code(post.2)];
         match gfrom {
-            Some(k) => self.ev.extend_from_slice(&[1, k]),
-            None => self.ev.push(0),
+            Some(k) => v.extend_from_slice(&[1, k]),
+            None => v.push(0),
         }
-        self.count += 1;
+        self.both(&v);
     }
     pub fn ready_hs(&mut self, n: u64) {
         if self.enabled {
-            self.ev.extend_from_slice(&[2, n]);
-            self.count += 1;
+            self.both(&[2, n]);
         }
     }
     pub fn fsync(&mut self, n: u64, t: u64, v: u64) {
         if self.enabled {
-            self.ev.extend_from_slice(&[3, n, t, v]);
-            self.count += 1;
+            self.both(&[3, n, t, v]);
         }
     }
     pub fn send(&mut self, m: &Message) {
@@ -57,23 +80,107 @@ impl PTrace {
             MessageType::MsgRequestVote => 1,
             MessageType::MsgRequestVoteResponse if !m.reject => 2,
             MessageType::MsgAppend | MessageType::MsgHeartbeat | MessageType::MsgSnapshot => 3,
+            MessageType::MsgAppendResponse if !m.reject && m.index >= 1 => {
+                // a released acknowledgement (log layer only)
+                self.lev.extend_from_slice(&[9, m.from, m.term, m.index]);
+                self.lcount += 1;
+                return;
+            }
             _ => return,
         };
-        self.ev.extend_from_slice(&[4, kind, m.from, m.to, m.term]);
-        self.count += 1;
+        self.both(&[4, kind, m.from, m.to, m.term]);
     }
     pub fn crash(&mut self, n: u64) {
         if self.enabled {
-            self.ev.extend_from_slice(&[5, n]);
-            self.count += 1;
+            self.both(&[5, n]);
+            let d = self.dghost.get(&n).cloned().unwrap_or_default();
+            self.ghost.insert(n, d);
+            self.last_commit.insert(n, 0);
         }
     }
     pub fn restart(&mut self, n: u64, term: u64, vote: u64) {
         if self.enabled {
-            self.ev.extend_from_slice(&[6, n, term, vote]);
-            self.count += 1;
+            self.both(&[6, n, term, vote]);
         }
     }
+    fn both(&mut self, v: &[u64]) {
+        self.ev.extend_from_slice(v);
+        self.count += 1;
+        self.lev.extend_from_slice(v);
+        self.lcount += 1;
+    }
+
+    fn full_log(prev: &[Ent], committed: &[Ent], first_index: u64, ents: &[raft::eraftpb::Entry]) -> Vec<Ent> {
+        let keep = (first_index - 1) as usize;
+        // The prefix below first_index is hidden (compacted, or replaced by a snapshot): it is
+        // a committed prefix, so it is taken from the longest committed log seen so far (for a
+        // compaction this equals the node's own old entries, which were applied).
+        let mut v: Vec<Ent> = if committed.len() >= keep {
+            committed[..keep].to_vec()
+        } else {
+            prev.iter().take(keep).cloned().collect()
+        };
+        while v.len() < keep {
+            // prefix hidden by a snapshot: it is a committed prefix
+            let k = v.len();
+            v.push(committed.get(k).cloned().unwrap_or((0, 0)));
+        }
+        v.extend(ents.iter().map(ent_of));
+        v
+    }
+
+    /// After an API call (or a restart) on node n: its log from `first_index`, commit index,
+    /// and the indexes of the acknowledgements it created in this call.
+    pub fn observe(&mut self, n: u64, first_index: u64, ents: &[raft::eraftpb::Entry], commit: u64, acks: &[u64]) {
+        if !self.enabled {
+            return;
+        }
+        let prev = self.ghost.get(&n).cloned().unwrap_or_default();
+        let new = Self::full_log(&prev, &self.committed_log, first_index, ents);
+        let pc = self.last_commit.get(&n).cloned().unwrap_or(0);
+        if (commit as usize) > self.committed_log.len() && (commit as usize) <= new.len() {
+            self.committed_log = new[..commit as usize].to_vec();
+        }
+        if new != prev || commit != pc || !acks.is_empty() {
+            self.lev.extend_from_slice(&[7, n, new.len() as u64]);
+            for e in &new {
+                self.lev.extend_from_slice(&[e.0, e.1]);
+            }
+            self.lev.push(commit);
+            self.lev.push(acks.len() as u64);
+            self.lev.extend_from_slice(acks);
+            self.lcount += 1;
+        }
+        self.ghost.insert(n, new);
+        self.last_commit.insert(n, commit);
+    }
+
+    /// After the application wrote to n's stable storage: the storage's entries from `first_index`.
+    pub fn durable(&mut self, n: u64, first_index: u64, ents: &[raft::eraftpb::Entry]) {
+        if !self.enabled {
+            return;
+        }
+        let prev = self.dghost.get(&n).cloned().unwrap_or_default();
+        let new = Self::full_log(&prev, &self.committed_log, first_index, ents);
+        if new != prev {
+            self.lev.extend_from_slice(&[8, n, new.len() as u64]);
+            for e in &new {
+                self.lev.extend_from_slice(&[e.0, e.1]);
+            }
+            self.lcount += 1;
+        }
+        self.dghost.insert(n, new);
+    }
+
+    pub fn llines(&self) -> (Vec<u64>, Vec<u64>) {
+        let mut c = vec![self.inc.len() as u64];
+        c.extend_from_slice(&self.inc);
+        c.push(0);
+        c.push(self.lcount);
+        c.extend_from_slice(&self.lev);
+        (c, vec![1, self.lcount])
+    }
+
     /// (case line numbers, impl line numbers)
     pub fn lines(&self) -> (Vec<u64>, Vec<u64>) {
         let mut c = vec![self.inc.len() as u64];
